@@ -224,8 +224,21 @@ func checkC17(c *an.Ctx) {
 		c.Check(good, "C17.3", an.Short(ldir)+":entries", site.Pos(), "a directory import loads the matches of <dir>/*.yaml", "loadDir does not load the elements of Glob(Join(dir, \"*.yaml\")): pattern "+pat)
 	}
 
-	// C17.4
+	// C17.4 (helpers of the package that wrap the merge are inlined; the loaded map and the target are followed by identity)
+	isMerge := func(in ssa.Instruction) (*ssa.Call, bool) {
+		mc, ok := in.(*ssa.Call)
+		if !ok {
+			return nil, false
+		}
+		switch an.ShortCallee(&mc.Call) {
+		case "github.com/imdario/mergo.Merge", "github.com/imdario/mergo.Map", "github.com/imdario/mergo.MergeWithOverwrite":
+			return mc, true
+		}
+		return nil, false
+	}
+	mergeDst := map[*ssa.Function][]ssa.Value{}
 	for _, fn := range []*ssa.Function{ld, ldir} {
+		fn := fn
 		for _, callee := range []*ssa.Function{ld, ldir} {
 			for _, site := range p.CallSitesOf(callee) {
 				if site.Parent() != fn {
@@ -241,7 +254,8 @@ func checkC17(c *an.Ctx) {
 					continue
 				}
 				res := extractOf(call, 0)
-				ex := &an.Explorer{P: p, NoReturn: noReturn}
+				ex := &an.Explorer{P: p, NoReturn: noReturn, MaxDepth: 2,
+					Inline: func(f *ssa.Function) bool { return an.Outer(f).Pkg == fn.Pkg && f != ld && f != ldir }}
 				loop.Bound(ex)
 				ex.Atom = func(v ssa.Value) (an.AVal, bool) {
 					for _, e := range errOf(call) {
@@ -252,15 +266,18 @@ func checkC17(c *an.Ctx) {
 					return an.AVal{}, false
 				}
 				ex.Effect = func(in ssa.Instruction, st *an.State) string {
-					mc, ok := in.(*ssa.Call)
-					if !ok || an.ShortCallee(&mc.Call) != "github.com/imdario/mergo.Merge" {
+					mc, ok := isMerge(in)
+					if !ok {
 						return ""
 					}
+					mergeDst[fn] = append(mergeDst[fn], st.Root(mc.Call.Args[0]))
 					// source operand carries the loaded map
-					for _, src := range an.Sources(mc.Call.Args[1]) {
-						for _, r := range res {
-							if src == r {
-								return "merge(loaded)"
+					for _, cand := range []ssa.Value{mc.Call.Args[1], st.Root(mc.Call.Args[1])} {
+						for _, src := range an.Sources(cand) {
+							for _, r := range res {
+								if src == r {
+									return "merge(loaded)"
+								}
 							}
 						}
 					}
@@ -296,18 +313,16 @@ func checkC17(c *an.Ctx) {
 	// the merge target is what the function returns
 	for _, fn := range []*ssa.Function{ld, ldir} {
 		good := true
-		for _, ci := range an.CallsIn(fn, "github.com/imdario/mergo.Merge") {
-			dst := an.Resolve(ci.Common().Args[0])
+		for _, dst0 := range mergeDst[fn] {
+			dst := an.Resolve(dst0)
 			returned := false
 			for _, ret := range an.Returns(fn) {
-				if an.IsNilConst(an.RetVal(ret, 1)) || true {
-					for _, src := range an.Sources(an.RetVal(ret, 0)) {
-						if u, ok := src.(*ssa.UnOp); ok && u.X == dst {
-							returned = true
-						}
-						if src == dst {
-							returned = true
-						}
+				for _, src := range an.Sources(an.RetVal(ret, 0)) {
+					if u, ok := src.(*ssa.UnOp); ok && u.X == dst {
+						returned = true
+					}
+					if src == dst {
+						returned = true
 					}
 				}
 			}
@@ -317,7 +332,7 @@ func checkC17(c *an.Ctx) {
 				for _, ret := range an.Returns(fn) {
 					rv := an.RetVal(ret, 0)
 					if u, ok := rv.(*ssa.UnOp); ok {
-						for _, d := range an.Sources(ci.Common().Args[0]) {
+						for _, d := range an.Sources(dst0) {
 							if d == u.X {
 								returned = true
 							}
